@@ -163,7 +163,8 @@ pub(crate) fn encrypt(opts: EncryptOptions) -> Result<(), anyhow::Error> {
         match Keyring::unlock_private_key(sender_key, pass.as_bytes()) {
             Ok(sk) => break sk,
             Err(_) => {
-                if !passterm::isatty(Stream::Stdin) {
+                // A password taken from the environment cannot be asked for again.
+                if env_pass || !passterm::isatty(Stream::Stdin) {
                     return Err(anyhow!("Key unlock failed."));
                 } else {
                     eprintln!("Key unlock failed.");
@@ -243,7 +244,8 @@ pub(crate) fn decrypt(opts: DecryptOptions) -> Result<(), anyhow::Error> {
         match Keyring::unlock_private_key(recipient_key, pass.as_bytes()) {
             Ok(sk) => break sk,
             Err(_) => {
-                if !passterm::isatty(Stream::Stdin) {
+                // A password taken from the environment cannot be asked for again.
+                if env_pass || !passterm::isatty(Stream::Stdin) {
                     return Err(anyhow!("Key unlock failed."));
                 } else {
                     eprintln!("Key unlock failed.");
